@@ -108,6 +108,12 @@ def run(tier, seed):
             f = {"base": m, "layer": "frame", "fault": {"op": "none"}, "kind": m["l"]}
             plans.append(("Active", [f]))
             plans.append((states[i % 5], [f]))
+        # reflection: the client's own frames (confirm active, synchronize, control, font list, input, ultimatum) sent back to
+        # it as server traffic - PDU kinds a server never sends, perfectly formed
+        for n in range(48):
+            f = {"base": {"l": "REFLECT", "n": n}, "layer": "frame", "fault": {"op": "none"}, "kind": "REFLECT"}
+            plans.append(("Active", [f]))
+            plans.append((states[n % 6], [f]))
         # pairs of faults within one message
         for _ in range(3000 if tier == "quick" else 200000):
             a = rng.choice(faults)
